@@ -5,7 +5,7 @@ import ast
 
 from .. import AnalysisError
 from ..program import FuncInfo, ancestors, enclosing_stmt, norm, walk_local
-from . import fa
+from . import fa, loopform
 
 EXPLANATION = (
     "Decided structurally: (orient) loopless_solution pins the objective at its optimum according to its direction "
@@ -109,7 +109,12 @@ def run(ctx) -> None:
     ctx.rule("C17.capture", "T6: old objective read before it is replaced", floor=1)
     ctx.rule("C17.nullspace", "T5: add_loopless constructs (coefficient comprehension, internal set, big-M, on/off, delta_g)", floor=5)
     ctx.rule("C17.magnitude", "T5: cut-offs are applied to magnitudes", floor=4)
-    fa.check_orientation(ctx, "C17.orient", [("cobra.flux_analysis.loopless", "loopless_solution")])
+    ctx.rule("C17.formulation", "formulation: loopless_solution poses the documented cycle-removal problem (oracle evaluation)", floor=8)
+    try:
+        loopform.check_loopless_solution(ctx, "C17.formulation")
+    except AnalysisError as exc:
+        ctx.defer(str(exc))
+    fa.check_orientation(ctx, "C17.orient", [("cobra.flux_analysis.loopless", "loopless_solution")], formulation_rule={"loopless_solution": "C17.formulation"})
     check_reported_objective(ctx)
     fa.check_cycle_free(ctx, "C17.cyclefree")
     fa.check_capture(ctx, "C17.capture", [("cobra.flux_analysis.loopless", "loopless_solution")])
